@@ -34,7 +34,12 @@ func VerifC06_Verify() {
 		nk = 4 // distinct honest keys that sign; the remaining list entries are further distinct addresses
 	}
 	for i := range addrs {
-		addrs[i] = common.Address(zzverif.AddrOf(i))
+		if i < nk {
+			addrs[i] = common.Address(zzverif.AddrOf(i))
+		} else {
+			// guardians that never sign in this scenario: concrete, pairwise distinct addresses
+			addrs[i] = common.Address{0: 0xA0, 1: byte(i >> 8), 2: byte(i), 19: 0x01}
+		}
 	}
 	if dup == 1 {
 		zzverif.Assume(n >= 2)
@@ -46,18 +51,25 @@ func VerifC06_Verify() {
 
 	for j := 0; j < k; j++ {
 		// who produced slot j's signature bytes (shape fork): member key m over the digest (0..nk-1),
-		// member 0 over the other digest (nk), 65 arbitrary bytes (nk+1)
-		sel := zzverif.Len("sel", 0, 1, 2, 3, 4, 5)
-		zzverif.Assume(sel <= nk+1)
+		// member 0 over the other digest (nk), 65 arbitrary bytes (nk+1), 65 bytes on which recovery certainly fails (nk+2)
+		sel := zzverif.Len("sel", 0, 1, 2, 3, 4, 5, 6)
+		zzverif.Assume(sel <= nk+2)
 		s := &Signature{Index: zzverif.U8("idx")}
+		if n > 19 {
+			// long lists: the index byte ranges over the boundary values only (a symbolic index into a 255-entry
+			// list makes every later query carry a 255-deep selection term)
+			s.Index = uint8(zzverif.Len("idxv", 0, 1, 2, 3, 253, 254, 255))
+		}
 		switch {
 		case sel < nk:
 			copy(s.Signature[:], zzverif.SignBy(sel, digest[:]))
 		case sel == nk:
 			zzverif.Assume(nk > 0)
 			copy(s.Signature[:], zzverif.SignBy(0, other[:]))
-		default:
+		case sel == nk+1:
 			copy(s.Signature[:], zzverif.Blob("rawsig", 65))
+		default:
+			copy(s.Signature[:], zzverif.MalformedSig("badsig"))
 		}
 		v.Signatures = append(v.Signatures, s)
 	}
@@ -121,5 +133,49 @@ func VerifC06_BodyBound() {
 		zzverif.Reach("accepted")
 	} else {
 		zzverif.Reach("rejected")
+	}
+}
+
+// C06: verification depends on the body as it is NOW: a VAA that verified stops verifying as soon as any body field is
+// changed in place (no stale digest is ever used), and verifies again when the field is restored.
+func VerifC06_MutateInPlace() {
+	v := verifBodyVAA()
+	d := v.SigningMsg()
+	s := &Signature{Index: 0}
+	copy(s.Signature[:], zzverif.SignBy(0, d[:]))
+	v.Signatures = []*Signature{s}
+	addrs := []common.Address{common.Address(zzverif.AddrOf(0))}
+	zzverif.Assert(v.VerifySignatures(addrs), "valid-verifies")
+	old := *v
+	field := zzverif.Len("field", 0, 1, 2, 3, 4, 5, 6, 7)
+	switch field {
+	case 0:
+		v.Timestamp = time.Unix(int64(zzverif.U32("ts2")), 0)
+	case 1:
+		v.Nonce = zzverif.U32("nonce2")
+	case 2:
+		v.Sequence = zzverif.U64("seq2")
+	case 3:
+		v.ConsistencyLevel = zzverif.U8("cl2")
+	case 4:
+		v.EmitterChain = ChainID(zzverif.U16("ec2"))
+	case 5:
+		v.TargetChain = ChainID(zzverif.U16("tc2"))
+	case 6:
+		v.EmitterAddress[zzverif.U8("ei")%32] ^= 1 << (zzverif.U8("eb") % 8)
+	case 7:
+		v.Payload[0] ^= 1 << (zzverif.U8("pb") % 8)
+	}
+	changed := v.Timestamp.Unix() != old.Timestamp.Unix() || v.Nonce != old.Nonce || v.Sequence != old.Sequence || v.ConsistencyLevel != old.ConsistencyLevel ||
+		v.EmitterChain != old.EmitterChain || v.TargetChain != old.TargetChain || v.EmitterAddress != old.EmitterAddress || field == 7
+	_ = v.SigningMsg()
+	zzverif.AssumeCollisionFree()
+	got := v.VerifySignatures(addrs)
+	if changed {
+		zzverif.Reach("changed")
+		zzverif.Assert(!got, "tampered-body-rejected")
+	} else {
+		zzverif.Reach("unchanged")
+		zzverif.Assert(got, "same-body-still-verifies")
 	}
 }
